@@ -294,6 +294,53 @@ def model_check(ctx, module, cfg=None, workers=None, timeout=900, constants=None
     return r
 
 
+def apalache_inductive(ctx, module, cinit, init="Init", indinit="IndInit", indinv="IndInv", safety="Safety", witnesses=(), timeout=420, name=None):
+    """Extra leg (TLA+ 'trifecta'): Apalache discharges an inductive invariant of <module> symbolically -
+    Init => IndInv, IndInv /\\ Next => IndInv', IndInv => Safety - for the constants fixed by the operator `cinit`.
+    `witnesses`: operators that must be reported VIOLATED from IndInit (vacuity control: IndInv is satisfiable where it
+    matters).  A failed obligation is a specification problem (exit 2); a missing tool or a timeout only skips the leg."""
+    exe = shutil.which("apalache-mc")
+    if not exe:
+        ctx.skipped.append("Apalache not installed: inductive-invariant leg of %s skipped" % module)
+        return None
+    d = ctx.rundir(name or ("A_%s_%s" % (module, cinit)))
+    for f in glob.glob(os.path.join(SPEC, "*.tla")):
+        shutil.copy(f, d)
+    t0 = time.time()
+    env = dict(os.environ)
+    env["TMPDIR"] = d
+    obligations = [("base", init, indinv, 0, True), ("step", indinit, indinv, 1, True), ("implies", indinit, safety, 0, True)]
+    obligations += [("witness:" + w, indinit, w, 0, False) for w in witnesses]
+    res = []
+    for label, i_, inv, length, want_ok in obligations:
+        cmd = [exe, "check", "--cinit=" + cinit, "--init=" + i_, "--inv=" + inv, "--length=%d" % length,
+               "--out-dir=" + os.path.join(d, "o"), "--run-dir=" + os.path.join(d, "r_" + label.replace(":", "_")), module + ".tla"]
+        try:
+            r = subprocess.run(cmd, cwd=d, capture_output=True, text=True, timeout=timeout, env=env)
+        except subprocess.TimeoutExpired:
+            ctx.skipped.append("Apalache timeout (%ds) on %s %s/%s: inductive-invariant leg skipped" % (timeout, module, cinit, label))
+            return None
+        out = r.stdout + r.stderr
+        open(os.path.join(d, "apalache_%s.log" % label.replace(":", "_")), "w").write(out)
+        ok = "EXITCODE: OK" in out
+        violated = "EXITCODE: ERROR (12)" in out
+        if not ok and not violated:
+            ctx.skipped.append("Apalache could not run %s %s/%s (skipped): %s" % (module, cinit, label, tail(out, 3)[:300]))
+            return None
+        if want_ok and not ok:
+            raise Infra("Apalache: obligation %s of %s (%s) fails; specification problem, see %s\n%s" % (label, module, cinit, d, tail(out, 25)))
+        if not want_ok and not violated:
+            raise Infra("Apalache: vacuity control %s of %s (%s) is not violated: IndInv excludes states it must admit (%s)" % (label, module, cinit, d))
+        res.append(label)
+    shutil.rmtree(os.path.join(d, "o"), ignore_errors=True)
+    for x in glob.glob(os.path.join(d, "r_*")):
+        shutil.rmtree(x, ignore_errors=True)
+    ctx.legs.setdefault("A", []).append(dict(module=module, cinit=cinit, obligations=res, engine="apalache-mc 0.58 (symbolic, z3)",
+                                             wall_s=round(time.time() - t0, 1)))
+    ctx.log("A %s/%s: inductive invariant discharged by Apalache (%d obligations, %.1fs)" % (module, cinit, len(res), time.time() - t0))
+    return res
+
+
 def generate(ctx, module, outname="gen.ndjson", cfg=None, timeout=600, constants=None, name=None, workers=1):
     """Leg G.  TLC evaluates the scenario set defined in <module> and writes
     it as ndjson (ndJsonSerialize) into its run dir; returns the path."""
